@@ -123,6 +123,9 @@ def scaled_parameters(
     result = []
     for entry in params:
         group = dict(params=[entry]) if isinstance(entry, Tensor) else entry.copy()
+        if isinstance(group["params"], Tensor):
+            # like torch.optim, accept a single tensor as a group's "params"
+            group["params"] = [group["params"]]
         group.setdefault("lr", lr)  # type: ignore[arg-type]
         group.setdefault("weight_decay", weight_decay)  # type: ignore[arg-type]
         if group["lr"] is None:
